@@ -177,6 +177,12 @@ def step (st : St) (args : List String) : St × String :=
   | ["pcred"] =>
     (st, joinSorted (st.store.pendCred.map (fun e => s!"{e.1.1}:{e.1.2}:{e.2.amt}")) ++ "\t" ++
          joinSorted ((Spec.Pending.pendingCredits (specEnv st) st.specPend).map (fun e => s!"{e.1}:{e.2.1}:{e.2.2}")))
+  | ["pgame"] =>
+    (st, joinSorted (st.store.pendGame.map (fun e =>
+           let (w, b, tx, vout) := e.1
+           s!"{w}:{if b then "b" else "s"}:{tx}:{vout}")) ++ "\t" ++
+         joinSorted ((Spec.Pending.pendingDeposits (specEnv st) st.specPend).map (fun d =>
+           s!"{d.1}:{if d.2.1.cls.isBinding then "b" else "s"}:{d.2.2.2.id}:{d.2.2.1}")))
   | ["addrs", w] =>
     if !st.wallets.contains w then (st, "err\terr") else
     let mine := st.issued.filter (fun x => x.2.1 = w)
@@ -236,17 +242,28 @@ def step (st : St) (args : List String) : St × String :=
     let sp := joinSorted ((Spec.Pending.flaggedDeposits st.own st.specChain st.specPend w).map (fun d => s!"{d.tx}:{d.idx}"))
     (st, m ++ "\t" ++ sp)
   | ["shistp", w] =>
-    if !st.wallets.contains w then (st, "err") else
+    if !st.wallets.contains w then (st, "err\terr") else
+    let sp := joinSorted ((Spec.Pending.pendingDeposits (specEnv st) st.specPend).filterMap (fun d =>
+      match d.2.1.cls with
+      | .stk f => if d.1 = w then some s!"{d.2.2.2.id}:{d.2.2.1}:{d.2.1.amt}:0:{f}:0@{d.2.1.addr}" else none
+      | _ => none))
     (st, joinSorted (st.store.pendGame.filterMap (fun e =>
       let (w', b, tx, vout) := e.1
       if w' = w && !b then
         match AMap.get st.store.pendCred (tx, vout) with
         | some c => some s!"{tx}:{vout}:{c.amt}:0:{(c.maturity + 2^32 - 1) % 2^32}:0@{c.sh}"
         | none => none
-      else none)))
+      else none)) ++ "\t" ++ sp)
   | ["bhistp", w] =>
-    if !st.wallets.contains w then (st, "err") else
-    (st, joinSorted (st.store.pendGame.filterMap (fun e =>
+    if !st.wallets.contains w then (st, "err\terr") else
+    let sp := joinSorted ((Spec.Pending.pendingDeposits (specEnv st) st.specPend).filterMap (fun d =>
+      let item (t : String) := s!"{d.2.2.2.id}:{d.2.2.1}:{d.2.1.amt}:0:0@{d.2.1.addr}>{t}"
+      if d.1 ≠ w then none else
+      match d.2.1.cls with
+      | .bindOld t => some (item t)
+      | .bindNew t => some (item t)
+      | _ => none))
+    (fun m => (st, m ++ "\t" ++ sp)) (joinSorted (st.store.pendGame.filterMap (fun e =>
       let (w', b, tx, vout) := e.1
       if w' = w && b then
         match AMap.get st.store.pending tx, AMap.get st.store.pendCred (tx, vout) with
